@@ -87,3 +87,13 @@ PROPS['C19'] = dict(
     step_runs={Q: GEN + [('fullsteps', 60, 48)], T: [('generic', 1500, 40), ('requests', 1500, 60), ('fullsteps', 800, 96)]},
     known_keys={},
 )
+
+import eng_c11
+PROPS['C11'] = dict(
+    props_file='Props/C11.v', kernels=['requests_stop_condition', 'prices_stop_condition'],
+    step_runs={Q: [('fullsteps', 60, 48)], T: [('fullsteps', 800, 96), ('generic', 800, 40)]},
+    engines=[eng_c11.engine], extended=[eng_c11.engine], replayers=[eng_c11.replayer],
+    known_keys={},
+    rule='eng_c11: seeded (step length, start, timeout, sorted request file with bursts/gaps/identical stamps, price table by id or region) runs through the real update functions; non-trivial = has both request and price rows',
+    assumptions=['request file sorted by departure time (the property says so)', 'one addressing mode (station_id or geoid) per price table'],
+)
